@@ -467,7 +467,7 @@ func tamperTrial(k *mon.Case, sweepPos int) {
 	if expectHsFail {
 		if hsErr == nil {
 			outcome = "VIOLATION-handshake-accepted"
-			k.Failf("tamper:handshake-accepts-tampered-stream:"+e.Kind+":"+e.Class, "%s: handshake succeeded although byte %d (< %d, end of the version packet) was tampered with: %+v", mode, d, hsEnd, e)
+			k.Failf("tamper:handshake-accepts-tampered-stream:"+e.Kind, "%s: handshake succeeded although byte %d (< %d, end of the version packet; class %s) was tampered with: %+v", mode, d, hsEnd, e.Class, e)
 			return
 		}
 		outcome = "handshake-rejected"
@@ -498,12 +498,12 @@ func tamperTrial(k *mon.Case, sweepPos int) {
 		}
 		if delivered >= len(want) {
 			outcome = "VIOLATION-delivered-tampered"
-			k.Failf("tamper:delivers-packet-at-or-after-tampered-byte:"+e.Kind+":"+e.Class, "%s: packet %d (len %d) delivered although only %d packets precede the first tampered byte %d: %+v", mode, delivered, len(got), len(want), d, e)
+			k.Failf("tamper:delivers-packet-at-or-after-tampered-byte:"+e.Kind, "%s: packet %d (len %d) delivered although only %d packets precede the first tampered byte %d: %+v", mode, delivered, len(got), len(want), d, e)
 			return
 		}
 		if !bytes.Equal(got, want[delivered]) {
 			outcome = "VIOLATION-delivered-altered"
-			k.Failf("tamper:delivers-altered-plaintext:"+e.Kind+":"+e.Class, "%s: packet %d delivered with other contents (len %d want %d): %+v", mode, delivered, len(got), len(want[delivered]), e)
+			k.Failf("tamper:delivers-altered-plaintext", "%s: packet %d delivered with other contents (len %d want %d): %+v", mode, delivered, len(got), len(want[delivered]), e)
 			return
 		}
 		delivered++
@@ -529,7 +529,7 @@ func tamperTrial(k *mon.Case, sweepPos int) {
 	for i := 0; i < follow; i++ {
 		if got, err := peer.V2ReceivePacket(nil); err == nil {
 			outcome = "VIOLATION-success-after-error"
-			k.Failf("tamper:success-after-error:"+e.Kind+":"+e.Class, "%s: V2ReceivePacket returned %d bytes after it had already failed: %+v", mode, len(got), e)
+			k.Failf("tamper:success-after-error:"+e.Kind, "%s: V2ReceivePacket returned %d bytes after it had already failed: %+v", mode, len(got), e)
 			return
 		}
 		k.Count("tamper.followup-calls", 1)
@@ -647,7 +647,7 @@ func overlongTrial(k *mon.Case) {
 func tamperFamilies(c *mon.Ctx) {
 	c.Family("handshake.overlong", scaled(c, 60, 6000), overlongTrial)
 	c.Require("handshake.overlong-garbage-refused", 20)
-	c.Family("tamper", scaled(c, 36000, 3000000), func(k *mon.Case) { tamperTrial(k, -1) })
+	c.Family("tamper", scaled(c, 36000, 2000000), func(k *mon.Case) { tamperTrial(k, -1) })
 	// fixed layout (garbage 5, one decoy, version, three packets): a bit flipped at EVERY byte offset, both roles
 	const sweepLen = 64 + 5 + 16 + (20 + 2) + 20 + (20 + 3) + 20 + (20 + 6)
 	c.Family("tamper.sweep", scaled(c, 2*sweepLen, 16*sweepLen), func(k *mon.Case) { tamperTrial(k, int(k.Index)) })
